@@ -128,6 +128,18 @@ func (t *Transport) setErr(err error) {
 	}
 }
 
+// setFatal closes the Transport whatever kind of error err is. It is used when
+// an I/O error (a timeout included) leaves a frame partly read or written:
+// the stream cannot be resynchronized after that.
+func (t *Transport) setFatal(err error) {
+	t.mu.Lock()
+	defer t.mu.Unlock()
+	if err != nil && t.err == nil {
+		t.conn.Close()
+		t.err = err
+	}
+}
+
 // HostKey returns the host's public key.
 func (t *Transport) HostKey() types.PublicKey { return t.hostKey }
 
@@ -228,7 +240,12 @@ func (t *Transport) writeMessage(obj ProtocolObject) error {
 
 	n, err := t.conn.Write(msg)
 	atomic.AddUint64(&t.w, uint64(n))
-	t.setErr(err)
+	if err != nil && n > 0 {
+		// part of the frame is on the wire: nothing can follow it
+		t.setFatal(err)
+	} else {
+		t.setErr(err)
+	}
 	return err
 }
 
@@ -263,12 +280,7 @@ func (t *Transport) readMessage(obj ProtocolObject, maxLen uint64) error {
 	if d.Err() != nil {
 		// the length prefix has been consumed: whatever interrupted the read,
 		// the stream cannot be resynchronized
-		t.mu.Lock()
-		if t.err == nil {
-			t.conn.Close()
-			t.err = d.Err()
-		}
-		t.mu.Unlock()
+		t.setFatal(d.Err())
 		return d.Err()
 	}
 	atomic.AddUint64(&t.r, uint64(8+msgSize))
